@@ -292,11 +292,11 @@ def _run_one(prop, o, tier, workdir):
     r["props_ok"] = sum(1 for p in real if p[2] == "SUCCESS")
     r["witnesses"] = len(wit)
     r["witnesses_reached"] = sum(1 for p in wit if p[2] == "FAILURE")
-    if nobody:
+    bad = [p for p in real if p[2] != "SUCCESS"]
+    if nobody and not bad:
         r["status"] = "INCONCLUSIVE"; r["why"] = "reachable functions without a body (would be havoc'ed silently): " + ", ".join(nobody)
         r["wall_s"] = round(time.time() - t0, 2)
         return r
-    bad = [p for p in real if p[2] != "SUCCESS"]
     unre = [p for p in wit if p[2] != "FAILURE"]
     r["functions"] = [f for f in reachable_functions(gb, o.entry)]
     if bad:
